@@ -506,7 +506,7 @@ fn t2_single_skip() {
     run2([B_SINGLE, B_SKIP | B_LEN], [1, 2], 2, 2, false);
 }
 
-// @verif family=TBMC hook=1 ignorefn=TProbeA quick=C12 thorough=C01,C02,C09 timeout=2400 mem=40 optcov=both
+// @verif family=TBMC hook=1 ignorefn=TProbeA thorough=C12,C01,C02,C09 timeout=3600 mem=48 optcov=both
 // @bounds kind=ConIterOfIter<usize,TProbe*> len<=2; thread 0: next_id_and_value(); thread 1 (last, continues on its own after the trace): enumerate_for_each(1, ..) until the end; <=7 guessed events per thread; all interleavings of the pull with the loop
 #[kani::proof]
 #[kani::unwind(12)]
